@@ -263,6 +263,9 @@ func runE2E(op string, rep *hx.Report) string {
 			hello = p
 		}
 	}
+	if slow, _ := strconv.Atoi(kvGet(ws, "slowapp")); slow > 0 {
+		return runSlowApp(op, rep, rig, ep, hello, mode, up, slow, seed)
+	}
 	if calls, _ := strconv.Atoi(kvGet(ws, "calls")); calls > 0 {
 		age, _ := strconv.Atoi(kvGet(ws, "age"))
 		return runLongLived(op, rep, rig, ep, hello, mode, calls, age)
@@ -422,6 +425,67 @@ func runE2E(op string, rep *hx.Report) string {
 	}
 	hx.WithTimeout(10*time.Second, wg.Wait)
 	return fmt.Sprintf("ok up=%d down=%d", len(got), len(clGot))
+}
+
+// runSlowApp: the application reads a little of what the client sent, pauses for `slow` seconds in the
+// middle of a chunk, then reads on: however long the application takes, it must read exactly the
+// client's bytes, once each.
+func runSlowApp(op string, rep *hx.Report, rig *snix.Rig, ep *sniproxy.Endpoint, hello []byte, mode string, up, slow int, seed uint64) string {
+	fail := func(key, desc string) { rep.Fail(key+":"+mode, desc, []string{op}) }
+	data := append(append([]byte{}, hello...), hx.NewRand(seed*31+9).Bytes(up)...)
+	res := make(chan string, 1)
+	go func() {
+		c, err := ep.Accept()
+		if err != nil {
+			res <- "never accepted"
+			return
+		}
+		defer c.Close()
+		c.SetDeadline(time.Now().Add(time.Duration(slow+40) * time.Second))
+		got := make([]byte, 0, len(data))
+		buf := make([]byte, 100)
+		n, _ := c.Read(buf) // part of the first chunk only
+		got = append(got, buf[:n]...)
+		time.Sleep(time.Duration(slow) * time.Second)
+		big := make([]byte, 8192)
+		for len(got) < len(data) {
+			n, err := c.Read(big)
+			got = append(got, big[:n]...)
+			if err != nil {
+				break
+			}
+		}
+		switch {
+		case bytes.Equal(got, data):
+			res <- "ok"
+		case bytes.HasPrefix(data, got):
+			res <- fmt.Sprintf("only %d of %d bytes arrived", len(got), len(data))
+		default:
+			res <- fmt.Sprintf("the bytes read differ from the bytes sent at offset %d of %d", firstDiff(got, data), len(data))
+		}
+	}()
+	cl, err := net.Dial("tcp", rig.Lis.Addr().String())
+	if err != nil {
+		return "skip " + err.Error()
+	}
+	defer cl.Close()
+	cl.SetDeadline(time.Now().Add(time.Duration(slow+40) * time.Second))
+	go cl.Write(data)
+	select {
+	case r := <-res:
+		if r != "ok" {
+			key := "up-stream-altered"
+			if strings.HasPrefix(r, "only") || r == "never accepted" {
+				key = "up-stream-incomplete"
+			}
+			fail(key, fmt.Sprintf("an application that pauses %d s in the middle of a chunk: %s", slow, r))
+			return "failed"
+		}
+	case <-time.After(time.Duration(slow+45) * time.Second):
+		fail("up-stream-incomplete", "the application never finished reading")
+		return "failed"
+	}
+	return "ok slowapp"
 }
 
 // runLongLived: connection A is opened and left idle; connection B then receives `calls` bytes that the
@@ -871,6 +935,7 @@ func main() {
 			ops = append(ops, fmt.Sprintf("e2e mode=%s up=%d down=%d seed=%d close=client idle=%d", mode, 70000, 90000, r.U64()%100000, 40))
 		}
 		// a tunnel that has served more than 2^16 calls, and connections older than any plausible timeout constant
+		ops = append(ops, "e2e mode=legacy up=300000 down=0 seed=5 close=client slowapp=4")
 		ops = append(ops, "e2e mode=legacy up=0 down=0 seed=1 close=client calls=70000 age=6")
 		ops = append(ops, "e2e mode=siding up=0 down=0 seed=1 close=client calls=5000 age=6")
 		if f.Thorough() {
